@@ -835,6 +835,18 @@ static void op_input(struct ctx *c)
       s < 0 ? "direct, no pump" : s == 0 ? "source pump 0" : "source pump 1");
     if (s < 0) upipe_input(P->upipe, uref, NULL);
     else { c->slot_uref = uref; c->slot_pipe = P->upipe; c->classes |= 1ull << CL_INPUT_VIA_PUMP; fake_upump_fire(c->src[s]); }
+    /* "allocating the first blocker suspends it": a pipe that keeps the buffer a pump has just delivered because it cannot take it
+     * now suspends THAT pump (upipe_helper_input.h: hold_input + block_input), whichever other pump it has suspended before --
+     * for the types that hold every buffer they cannot handle at once (time_limit, convert_to_block, genaux) */
+    if (s >= 0 && c->src[s] && !c->ret && (c->type == T_TIME_LIMIT || c->type == T_TBLK || c->type == T_GENAUX)) {
+        struct trk *t2 = &c->trk[c->ntrk - 1];
+        if (!t2->delivered && !t2->freed && !probe_dead(c, P->probe)) {
+            int total = fake_upump_pump_blockers(c->src[s]), gates = 0;
+            for (int g = 0; g < MAXGATE; g++) gates += gate_blocks(&c->gate[g], c->src[s]);
+            if (total - gates <= 0)
+                FAILP(ORACLE_BLOCK, "blocker/missing", "op %d: %s keeps the buffer source pump %d has just delivered (it cannot take it now) but holds no blocker on that pump: the pump goes on firing into a pipe that is stalled", c->opno, pname(c, p), s);
+        }
+    }
     end_op(c, "input");
 }
 
